@@ -84,7 +84,10 @@ def parseSess (s : String) : Option SniSess :=
 def handle (args : List String) : Option String :=
   match args with
   | ["run", tee, explicit, domain, remote, st0, rr, rt, others, clear, prot, oracle] => do
-    let tee ← tee.toNat?
+    -- the field carries the tee variant (0..3) and the connection kind: tee + 4 * kind
+    let tk ← tee.toNat?
+    let tee := tk % 4
+    let kind := tk / 4
     let explicit ← parseBool explicit
     let domain ← domain.toNat?
     let remote ← remote.toNat?
@@ -100,7 +103,10 @@ def handle (args : List String) : Option String :=
     let oracle ← mapM? parseOracle (splitList oracle)
     let cfg : Cfg := { tee := tee != 0, rr := rr, rt := rt, sk := sk, others := others }
     let inp : Input := { clear := clear, prot := prot, oracle := oracle }
-    let env : Env := { domain := domain, remote := remote, captured := if explicit then some .explicit else none }
+    let conn ← (if kind == 0 then some ConnKind.netConn else if kind == 1 then some .plainRW
+      else if kind == 2 then some .stateMethod else if kind == 3 then some (.tlsConn (.dom domain)) else none)
+    let env : Env := { domain := domain, remote := remote, captured := if explicit then some .explicit else none,
+                       conn := conn }
     let r := run cfg env st0 inp (4 * unitCount inp + 8)
     pure (joinList (r.1.filterMap showEv) ++ " " ++ showOutcome r.2)
   | ["sni", explicit, ss] => do
